@@ -1,80 +1,417 @@
-/-! Feasibility prototype (scratch): a byte reader in which short reads are visible, and the
-    "prefix lemma": a parse that never saw a short read gives the same result on any extension. -/
+import DimodModel.FileReader
 
-inductive Err | value | index | ub
-  deriving Repr, DecidableEq
+/-! # Generic facts about reader programs  (C09 / C10)
 
-/-- state: remaining input, and whether any read so far came back short -/
-structure RS where
-  rest : List UInt8
-  short : Bool
+* `run_bind`: sequencing;
+* `runS_erase`: the short-read flag is a ghost (it never influences the result);
+* `runS_stable` / `reader_prefix`: a run that saw no short read is unchanged by appending bytes, and
+  used only the bytes it consumed;
+* `Comp p xs a pad`: "`p` decodes `xs` to `a`, and every proper prefix of `xs` makes `p` raise,
+  except that losing (part of) the last `pad` bytes still gives `a`" -- with the composition lemmas
+  that build the truncation theorems of whole file formats from their sections. -/
 
-abbrev Rd (α : Type) := RS → Except Err (α × RS)
+namespace FileFmt
 
-def Rd.pure (a : α) : Rd α := fun s => .ok (a, s)
-def Rd.bind (p : Rd α) (f : α → Rd β) : Rd β := fun s =>
-  match p s with
-  | .error e => .error e
-  | .ok (a, s') => f a s'
-def Rd.fail (e : Err) : Rd α := fun _ => .error e
+open Prog
 
-/-- `file.read(n)`: up to `n` bytes; remembers if fewer came back -/
-def Rd.read (n : Nat) : Rd (List UInt8) := fun s =>
-  .ok (s.rest.take n, { rest := s.rest.drop n, short := s.short || decide (s.rest.length < n) })
+/-! ## integers -/
 
-instance : Monad Rd where
-  pure := Rd.pure
-  bind := Rd.bind
+theorem toLE_length (k n : Nat) : (toLE k n).length = k := by
+  induction k generalizing n with
+  | zero => rfl
+  | succ k ih => simp [toLE, ih]
 
-/-- extension-stability: if `p` succeeds without a short read, then on input extended by `ys`
-    it succeeds with the same value and the same remaining input plus `ys` -/
-def Stable (p : Rd α) : Prop :=
-  ∀ xs a r, p ⟨xs, false⟩ = .ok (a, ⟨r, false⟩) →
-    ∀ ys, p ⟨xs ++ ys, false⟩ = .ok (a, ⟨r ++ ys, false⟩)
+theorem leNat_toLE (k n : Nat) (h : n < 256 ^ k) : leNat (toLE k n) = n := by
+  induction k generalizing n with
+  | zero => simp at h; subst h; rfl
+  | succ k ih =>
+    have h2 : n / 256 < 256 ^ k := by
+      rw [Nat.div_lt_iff_lt_mul (by decide)]
+      simpa [Nat.pow_succ] using h
+    simp only [toLE, leNat, ih _ h2]
+    have : (UInt8.ofNat (n % 256)).toNat = n % 256 := by
+      simp [UInt8.toNat_ofNat']
+    rw [this]; omega
 
-/-- the short flag is monotone: once set it stays set -/
-def Mono (p : Rd α) : Prop :=
-  ∀ xs a r b, p ⟨xs, true⟩ = .ok (a, ⟨r, b⟩) → b = true
+theorem spaces_length (n : Nat) : (spaces n).length = n := by simp [spaces]
 
-theorem stable_pure (a : α) : Stable (Rd.pure a) := by
-  intro xs a' r h ys
-  simp only [Rd.pure, Except.ok.injEq, Prod.mk.injEq, RS.mk.injEq] at h ⊢
-  obtain ⟨rfl, rfl, _⟩ := h
-  simp
+theorem padLen_mod (t : Nat) : (t + padLen t) % 64 = 0 := by unfold padLen; omega
 
-theorem stable_fail (e : Err) : Stable (Rd.fail e : Rd α) := by
-  intro xs a r h; simp [Rd.fail] at h
+theorem padLen_lt (t : Nat) : padLen t < 64 := by unfold padLen; omega
 
-theorem stable_read (n : Nat) : Stable (Rd.read n) := by
-  intro xs a r h ys
-  simp only [Rd.read, Bool.false_or, Except.ok.injEq, Prod.mk.injEq, RS.mk.injEq,
-    decide_eq_false_iff_not, Nat.not_lt] at h ⊢
-  obtain ⟨rfl, rfl, hlen⟩ := h
-  refine ⟨?_, ?_, ?_⟩
-  · rw [List.take_append_of_le_length hlen]
-  · rw [List.drop_append_of_le_length hlen]
-  · simp; omega
+/-! ## sequencing -/
 
-theorem mono_read (n : Nat) : Mono (Rd.read n) := by
-  intro xs a r b h; simp [Rd.read] at h; exact h.2.2
+theorem run_bind (p : Prog α) (f : α → Prog β) (s : Bytes) :
+    (p.bind f).run s = match p.run s with
+      | .ok (a, r) => (f a).run r
+      | .err e => .err e
+      | .ub => .ub := by
+  induction p generalizing s with
+  | ret a => simp [Prog.bind, run]
+  | fail e => simp [Prog.bind, run]
+  | ub => simp [Prog.bind, run]
+  | read n k ih => simp only [Prog.bind, run]; exact ih _ _
 
-/-- the key closure property -/
-theorem stable_bind (p : Rd α) (f : α → Rd β) (hp : Stable p) (hpm : ∀ xs, ∀ a r, p ⟨xs, false⟩ = .ok (a, ⟨r, true⟩) → ∀ b r' , f a ⟨r, true⟩ = .ok (b, r') → r'.short = true)
-    (hf : ∀ a, Stable (f a)) : Stable (Rd.bind p f) := by
-  intro xs b r h ys
-  simp only [Rd.bind] at h ⊢
-  cases hpx : p ⟨xs, false⟩ with
-  | error e => simp [hpx] at h
+theorem run_bind_ok {p : Prog α} {f : α → Prog β} {s r : Bytes} {a : α} (h : p.run s = .ok (a, r)) :
+    (p.bind f).run s = (f a).run r := by rw [run_bind, h]
+
+theorem run_bind_err {p : Prog α} {f : α → Prog β} {s : Bytes} {e : FErr} (h : p.run s = .err e) :
+    (p.bind f).run s = .err e := by rw [run_bind, h]
+
+theorem run_ofRes (r : Res α) (s : Bytes) :
+    (Prog.ofRes r).run s = match r with | .ok a => .ok (a, s) | .err e => .err e | .ub => .ub := by
+  cases r <;> rfl
+
+/-! ## the short-read flag is a ghost -/
+
+def eraseFlag : Res (α × Bytes × Bool) → Res (α × Bytes)
+  | .ok (a, r, _) => .ok (a, r)
+  | .err e => .err e
+  | .ub => .ub
+
+theorem runS_erase (p : Prog α) (s : Bytes) (sh : Bool) : eraseFlag (p.runS s sh) = p.run s := by
+  induction p generalizing s sh with
+  | ret a => rfl
+  | fail e => rfl
+  | ub => rfl
+  | read n k ih => simp only [runS, run]; exact ih _ _ _
+
+/-- once a read was short the flag stays set -/
+theorem runS_mono (p : Prog α) (s : Bytes) (a : α) (r : Bytes) (b : Bool)
+    (h : p.runS s true = .ok (a, r, b)) : b = true := by
+  induction p generalizing s with
+  | ret x => simp [runS] at h; exact h.2.2
+  | fail e => simp [runS] at h
+  | ub => simp [runS] at h
+  | read n k ih => simp only [runS, Bool.true_or] at h; exact ih _ _ h
+
+/-- **extension stability**: a run without a short read gives the same value on any extension of
+    the input, and leaves the appended bytes unread -/
+theorem runS_stable (p : Prog α) (xs : Bytes) (a : α) (r : Bytes)
+    (h : p.runS xs false = .ok (a, r, false)) (ys : Bytes) :
+    p.runS (xs ++ ys) false = .ok (a, r ++ ys, false) := by
+  induction p generalizing xs with
+  | ret x =>
+    simp only [runS, Res.ok.injEq, Prod.mk.injEq] at h ⊢
+    obtain ⟨rfl, rfl, _⟩ := h
+    simp
+  | fail e => simp [runS] at h
+  | ub => simp [runS] at h
+  | read n k ih =>
+    simp only [runS, Bool.false_or] at h ⊢
+    by_cases hlen : xs.length < n
+    · simp only [hlen, decide_true] at h
+      exact absurd (runS_mono _ _ _ _ _ h) (by simp)
+    · have hle : n ≤ xs.length := Nat.le_of_not_lt hlen
+      simp only [hlen, decide_false] at h
+      have h2 : ¬ (xs.length + ys.length < n) := by omega
+      rw [List.take_append_of_le_length hle, List.drop_append_of_le_length hle]
+      simp only [List.length_append, h2, decide_false]
+      exact ih _ _ h
+
+/-- a run that ended with the flag clear started with it clear, read only `xs` minus what is left,
+    and is reproduced on exactly the consumed bytes -/
+theorem runS_consumed (p : Prog α) (xs : Bytes) (a : α) (r : Bytes)
+    (h : p.runS xs false = .ok (a, r, false)) :
+    ∃ c, xs = c ++ r ∧ p.runS c false = .ok (a, [], false) := by
+  induction p generalizing xs with
+  | ret x =>
+    simp only [runS, Res.ok.injEq, Prod.mk.injEq] at h
+    obtain ⟨rfl, rfl, _⟩ := h
+    exact ⟨[], by simp, by simp [runS]⟩
+  | fail e => simp [runS] at h
+  | ub => simp [runS] at h
+  | read n k ih =>
+    simp only [runS, Bool.false_or] at h
+    by_cases hlen : xs.length < n
+    · simp only [hlen, decide_true] at h
+      exact absurd (runS_mono _ _ _ _ _ h) (by simp)
+    · have hle : n ≤ xs.length := Nat.le_of_not_lt hlen
+      simp only [hlen, decide_false] at h
+      obtain ⟨c, hc, hrun⟩ := ih _ _ h
+      refine ⟨xs.take n ++ c, ?_, ?_⟩
+      · rw [List.append_assoc, ← hc, List.take_append_drop]
+      · have hl : (xs.take n).length = n := by simp [List.length_take, Nat.min_eq_left hle]
+        simp only [runS, Bool.false_or]
+        have h1 : (xs.take n ++ c).take n = xs.take n := by
+          rw [List.take_append_of_le_length (by omega)]; simp [List.take_take]
+        have h2 : (xs.take n ++ c).drop n = c := by
+          rw [List.drop_append_of_le_length (by omega)]
+          simp [List.drop_eq_nil_of_le (Nat.le_of_eq hl)]
+        have h3 : ¬ ((xs.take n ++ c).length < n) := by simp [hl]
+        rw [h1, h2]; simp only [h3, decide_false]; exact hrun
+
+/-- the flag-free form used below: if the run on `xs` leaves a non-empty rest, no read was short -/
+theorem runS_rest_ne (p : Prog α) (xs : Bytes) (sh : Bool) (a : α) (r : Bytes) (b : Bool)
+    (h : p.runS xs sh = .ok (a, r, b)) (hr : r ≠ []) : b = sh := by
+  induction p generalizing xs sh with
+  | ret x => simp [runS] at h; exact h.2.2.symm
+  | fail e => simp [runS] at h
+  | ub => simp [runS] at h
+  | read n k ih =>
+    simp only [runS] at h
+    have := ih _ _ _ h
+    by_cases hlen : xs.length < n
+    · -- the rest after a short read is empty, and stays empty
+      exfalso
+      have hd : xs.drop n = [] := List.drop_eq_nil_of_le (Nat.le_of_lt hlen)
+      rw [hd] at h
+      clear this ih
+      -- a program run on [] leaves []
+      have key : ∀ (q : Prog α) (sh' : Bool) (a' : α) (r' : Bytes) (b' : Bool),
+          q.runS [] sh' = .ok (a', r', b') → r' = [] := by
+        intro q
+        induction q with
+        | ret x => intro sh' a' r' b' h'; simp [runS] at h'; exact h'.2.1
+        | fail e => intro sh' a' r' b' h'; simp [runS] at h'
+        | ub => intro sh' a' r' b' h'; simp [runS] at h'
+        | read n k ih' => intro sh' a' r' b' h'; simp only [runS, List.take_nil, List.drop_nil] at h'; exact ih' _ _ _ _ _ h'
+      exact hr (key _ _ _ _ _ h)
+    · simp only [hlen, decide_false, Bool.or_false] at this; exact this
+
+/-- `run` version of stability: a successful run that leaves bytes unread is unchanged by
+    appending more -/
+theorem run_stable (p : Prog α) (xs : Bytes) (a : α) (r : Bytes) (h : p.run xs = .ok (a, r)) (hr : r ≠ [])
+    (ys : Bytes) : p.run (xs ++ ys) = .ok (a, r ++ ys) := by
+  have he := runS_erase p xs false
+  rw [h] at he
+  cases hS : p.runS xs false with
+  | err e => rw [hS] at he; simp [eraseFlag] at he
+  | ub => rw [hS] at he; simp [eraseFlag] at he
   | ok v =>
-    obtain ⟨a, ⟨r1, s1⟩⟩ := v
-    simp only [hpx] at h
-    cases s1 with
-    | true =>
-      have := hpm xs a r1 hpx b ⟨r, false⟩ h
-      simp at this
-    | false =>
-      rw [hp xs a r1 hpx ys]
-      exact hf a r1 b r h ys
+    obtain ⟨a', r', b⟩ := v
+    rw [hS] at he
+    simp only [eraseFlag, Res.ok.injEq, Prod.mk.injEq] at he
+    obtain ⟨rfl, rfl⟩ := he
+    have hb : b = false := runS_rest_ne p xs false _ _ _ hS hr
+    subst hb
+    have := runS_stable p xs _ _ hS ys
+    have he2 := runS_erase p (xs ++ ys) false
+    rw [this] at he2
+    simpa [eraseFlag] using he2.symm
 
-#print axioms stable_bind
-#print axioms stable_read
+/-- a run on the empty input leaves the empty input -/
+theorem run_nil_rest (p : Prog α) (a : α) (r : Bytes) (h : p.run [] = .ok (a, r)) : r = [] := by
+  induction p with
+  | ret x => simp [run] at h; exact h.2
+  | fail e => simp [run] at h
+  | ub => simp [run] at h
+  | read n k ih => simp only [run, List.take_nil, List.drop_nil] at h; exact ih _ h
+
+/-- **the prefix lemma in the form the truncation theorems use**: if `p` decodes `xs ++ rest` leaving
+    exactly `rest` (for every `rest`), then on a *proper* prefix of `xs` it cannot succeed with bytes
+    left over: it raises, hits `ub`, or returns having read to the end of the prefix -/
+theorem cut_rest_nil (p : Prog α) (xs : Bytes) (a : α)
+    (full : ∀ rest, p.run (xs ++ rest) = .ok (a, rest))
+    (k : Nat) (_hk : k < xs.length) (a' : α) (r : Bytes) (h : p.run (xs.take k) = .ok (a', r)) : r = [] := by
+  by_cases hr : r = []
+  · exact hr
+  · exfalso
+    have := run_stable p _ _ _ h hr (xs.drop k)
+    rw [List.take_append_drop] at this
+    have f := full []
+    rw [List.append_nil] at f
+    rw [f] at this
+    simp only [Res.ok.injEq, Prod.mk.injEq] at this
+    have h2 : r ++ xs.drop k = [] := this.2.symm
+    simp at h2
+    exact hr h2.1
+
+/-! ## `Comp`: decoding with truncation behaviour -/
+
+/-- `p` decodes `xs` to `a`; cutting `xs` short makes `p` raise, unless at most the last `pad`
+    bytes were lost, in which case the result is still `a` -/
+structure Comp (p : Prog α) (xs : Bytes) (a : α) (pad : Nat) : Prop where
+  full : ∀ rest, p.run (xs ++ rest) = .ok (a, rest)
+  cut : ∀ k, k < xs.length →
+    (∃ e, p.run (xs.take k) = .err e) ∨ (xs.length ≤ k + pad ∧ p.run (xs.take k) = .ok (a, []))
+
+/-- a program that never returns `ub` -/
+def NoUB (p : Prog α) : Prop := ∀ s, p.run s ≠ .ub
+
+/-- a program that raises when started at end of input -/
+def EofFails (p : Prog α) : Prop := ∃ e, p.run [] = .err e
+
+theorem Comp.ret (a : α) : Comp (.ret a) [] a 0 :=
+  ⟨fun rest => by simp [run], fun k hk => by simp at hk⟩
+
+theorem take_append_ge {xs ys : List α} {k : Nat} (h : xs.length ≤ k) :
+    (xs ++ ys).take k = xs ++ ys.take (k - xs.length) := by
+  rw [List.take_append]
+  simp [List.take_of_length_le h]
+
+theorem take_append_lt {xs ys : List α} {k : Nat} (h : k ≤ xs.length) :
+    (xs ++ ys).take k = xs.take k := by
+  rw [List.take_append]
+  have : k - xs.length = 0 := by omega
+  simp [this]
+
+/-- a strict component (no proper prefix succeeds) followed by anything -/
+theorem Comp.bind_strict {p : Prog α} {f : α → Prog β} {xs1 xs2 : Bytes} {a : α} {b : β} {pad : Nat}
+    (h1 : Comp p xs1 a 0) (h2 : Comp (f a) xs2 b pad) : Comp (p.bind f) (xs1 ++ xs2) b pad := by
+  constructor
+  · intro rest
+    rw [List.append_assoc, run_bind_ok (h1.full _)]
+    exact h2.full rest
+  · intro k hk
+    by_cases hlt : k < xs1.length
+    · rw [take_append_lt (Nat.le_of_lt hlt)]
+      rcases h1.cut k hlt with ⟨e, he⟩ | ⟨hle, _⟩
+      · exact .inl ⟨e, run_bind_err he⟩
+      · omega
+    · have hge : xs1.length ≤ k := Nat.le_of_not_lt hlt
+      rw [take_append_ge hge]
+      have hk2 : k - xs1.length < xs2.length := by simp at hk; omega
+      have hf := h1.full (xs2.take (k - xs1.length))
+      rcases h2.cut _ hk2 with ⟨e, he⟩ | ⟨hle, hok⟩
+      · exact .inl ⟨e, by rw [run_bind_ok hf]; exact he⟩
+      · refine .inr ⟨by simp; omega, ?_⟩
+        rw [run_bind_ok hf]; exact hok
+
+/-- a lenient component (a prefix may succeed with anything, having read to the end) followed by a
+    continuation that raises at end of input whatever it is given -/
+theorem Comp.bind_lenient {p : Prog α} {f : α → Prog β} {xs1 xs2 : Bytes} {a : α} {b : β} {pad : Nat}
+    (full1 : ∀ rest, p.run (xs1 ++ rest) = .ok (a, rest)) (noub : NoUB p)
+    (eof : ∀ a', EofFails (f a')) (h2 : Comp (f a) xs2 b pad) : Comp (p.bind f) (xs1 ++ xs2) b pad := by
+  constructor
+  · intro rest
+    rw [List.append_assoc, run_bind_ok (full1 _)]
+    exact h2.full rest
+  · intro k hk
+    by_cases hlt : k < xs1.length
+    · rw [take_append_lt (Nat.le_of_lt hlt)]
+      cases hp : p.run (xs1.take k) with
+      | err e => exact .inl ⟨e, run_bind_err hp⟩
+      | ub => exact absurd hp (noub _)
+      | ok v =>
+        obtain ⟨a', r⟩ := v
+        have hr : r = [] := cut_rest_nil p xs1 a full1 k hlt a' r hp
+        subst hr
+        obtain ⟨e, he⟩ := eof a'
+        exact .inl ⟨e, by rw [run_bind_ok hp]; exact he⟩
+    · have hge : xs1.length ≤ k := Nat.le_of_not_lt hlt
+      rw [take_append_ge hge]
+      have hk2 : k - xs1.length < xs2.length := by simp at hk; omega
+      have hf := full1 (xs2.take (k - xs1.length))
+      rcases h2.cut _ hk2 with ⟨e, he⟩ | ⟨hle, hok⟩
+      · exact .inl ⟨e, by rw [run_bind_ok hf]; exact he⟩
+      · refine .inr ⟨by simp; omega, ?_⟩
+        rw [run_bind_ok hf]; exact hok
+
+/-- post-processing the result with a pure function -/
+theorem Comp.map {p : Prog α} {xs : Bytes} {a : α} {pad : Nat} (h : Comp p xs a pad) (g : α → β) :
+    Comp (p.bind fun x => .ret (g x)) xs (g a) pad := by
+  constructor
+  · intro rest; rw [run_bind_ok (h.full rest)]; rfl
+  · intro k hk
+    rcases h.cut k hk with ⟨e, he⟩ | ⟨hle, hok⟩
+    · exact .inl ⟨e, run_bind_err he⟩
+    · exact .inr ⟨hle, by rw [run_bind_ok hok]; rfl⟩
+
+/-- what `Comp` says about a file: every proper prefix raises or gives the original with only
+    padding lost; never `ub`, never another value -/
+theorem Comp.truncation_safe {p : Prog α} {xs : Bytes} {a : α} {pad : Nat} (h : Comp p xs a pad)
+    (k : Nat) (hk : k < xs.length) :
+    (∃ e, p.run (xs.take k) = .err e) ∨
+    (p.run (xs.take k) = .ok (a, []) ∧ xs.length - pad ≤ k) := by
+  rcases h.cut k hk with he | ⟨hle, hok⟩
+  · exact .inl he
+  · exact .inr ⟨hok, by omega⟩
+
+/-! ## primitive components -/
+
+theorem run_read_append (n : Nat) (k : Bytes → Prog α) (xs rest : Bytes) (h : xs.length = n) :
+    (Prog.read n k).run (xs ++ rest) = (k xs).run rest := by
+  simp only [run]
+  rw [List.take_append_of_le_length (by omega), List.drop_append_of_le_length (by omega)]
+  simp [List.take_of_length_le (Nat.le_of_eq h), List.drop_eq_nil_of_le (Nat.le_of_eq h)]
+
+theorem run_read_short (n : Nat) (k : Bytes → Prog α) (xs : Bytes) (h : xs.length ≤ n) :
+    (Prog.read n k).run xs = (k xs).run [] := by
+  simp only [run]
+  rw [List.take_of_length_le h, List.drop_eq_nil_of_le h]
+
+theorem Comp.readExact (xs : Bytes) (e : FErr) : Comp (Prog.readExact xs.length e) xs xs 0 := by
+  constructor
+  · intro rest
+    rw [Prog.readExact, run_read_append _ _ _ _ rfl]
+    simp [run]
+  · intro k hk
+    left
+    refine ⟨e, ?_⟩
+    have hl : (xs.take k).length = k := by simp [List.length_take]; omega
+    rw [Prog.readExact, run_read_short _ _ _ (by omega)]
+    simp [hl, hk, run]
+
+theorem take_ne_of_lt {xs : List α} {k : Nat} (hk : k < xs.length) : xs.take k ≠ xs := by
+  intro h
+  have := congrArg List.length h
+  simp [List.length_take] at this
+  omega
+
+theorem Comp.expect (m : Bytes) : Comp (Prog.expect m) m () 0 := by
+  constructor
+  · intro rest
+    rw [Prog.expect, run_read_append _ _ _ _ rfl]
+    simp [run]
+  · intro k hk
+    left
+    refine ⟨.value, ?_⟩
+    have hl : (m.take k).length ≤ m.length := by simp [List.length_take]; omega
+    rw [Prog.expect, run_read_short _ _ _ hl]
+    simp [take_ne_of_lt hk, run]
+
+theorem EofFails.readExact (n : Nat) (e : FErr) (h : 0 < n) : EofFails (Prog.readExact n e) :=
+  ⟨e, by simp [Prog.readExact, run, h]⟩
+
+theorem EofFails.bind {p : Prog α} (f : α → Prog β) (h : EofFails p) : EofFails (p.bind f) := by
+  obtain ⟨e, he⟩ := h
+  exact ⟨e, run_bind_err he⟩
+
+theorem NoUB.bind {p : Prog α} {f : α → Prog β} (hp : NoUB p) (hf : ∀ a, NoUB (f a)) : NoUB (p.bind f) := by
+  intro s h
+  rw [run_bind] at h
+  cases hr : p.run s with
+  | ok v => rw [hr] at h; exact hf _ _ h
+  | err e => rw [hr] at h; simp at h
+  | ub => exact hp _ hr
+
+theorem NoUB.ofRes {r : Res α} (h : r ≠ .ub) : NoUB (Prog.ofRes r) := by
+  intro s hs; rw [run_ofRes] at hs; cases r <;> simp_all
+
+/-! ## the JSON contract and the driver's oracle -/
+
+/-- what the theorems assume of `json.loads`: the text `json.dumps` produced, followed by blanks,
+    parses to the value; no proper prefix of the text parses (the text of an object or array ends
+    with its closing bracket) -/
+structure JsonContract (parse : Bytes → Option H) (text : Bytes) (h : H) : Prop where
+  full : ∀ ws : Bytes, (∀ b ∈ ws, b = 32 ∨ b = 10) → parse (text ++ ws) = some h
+  cut : ∀ k, k < text.length → parse (text.take k) = none
+
+theorem isPrefixOf_take_false {text : Bytes} {k : Nat} (hk : k < text.length) : text.isPrefixOf (text.take k) = false := by
+  cases h : text.isPrefixOf (text.take k) with
+  | false => rfl
+  | true =>
+    rw [List.isPrefixOf_iff_prefix] at h
+    have := h.length_le
+    simp [List.length_take] at this
+    omega
+
+/-- the oracle the compiled driver uses satisfies the contract -/
+theorem oracle_contract (text : Bytes) (v : α) : JsonContract (oracleParse text v) text v := by
+  constructor
+  · intro ws hws
+    unfold oracleParse
+    have h1 : text.isPrefixOf (text ++ ws) = true := by
+      rw [List.isPrefixOf_iff_prefix]; exact List.prefix_append _ _
+    have h2 : ((text ++ ws).drop text.length).all isJsonWs = true := by
+      rw [List.drop_left]
+      rw [List.all_eq_true]
+      intro b hb
+      rcases hws b hb with rfl | rfl <;> decide
+    simp only [h1, h2, Bool.and_self, if_true]
+  · intro k hk
+    unfold oracleParse
+    simp [isPrefixOf_take_false hk]
+
+end FileFmt
